@@ -701,6 +701,26 @@ func c15File(c *fw.Ctx, r *rand.Rand, j int) {
 	c.Nontrivial("file-open", how, di.Hex, len(img))
 	// the header the handle believes in
 	k := len(h.ArchiveInfoList())
+	// the clock of the operations stays inside the clock domain OF THE HEADER AS OPENED (a flipped bit may have made a
+	// step or retention far larger than the generated layout's): maxRetention + 2*maxStep <= now, now + 2*maxStep < 2^32
+	{
+		var ms, mr int64
+		for _, a := range h.ArchiveInfoList() {
+			if s := int64(a.SecondsPerPoint()); s > ms {
+				ms = s
+			}
+			if rr := int64(a.MaxRetention()); rr > mr {
+				mr = rr
+			}
+		}
+		if now+2*ms >= 1<<32 {
+			now = int64(1)<<32 - 1 - 2*ms - int64(r.Intn(1000))
+		}
+		if now < mr+2*ms || now < 1 {
+			c.Count("damaged_headers_without_a_clock_in_domain", 1)
+			return
+		}
+	}
 	type opf struct {
 		name string
 		f    func() error
